@@ -19,6 +19,15 @@ def _fresh(doc, stem):
     return f"{stem}{i or ''}"
 
 
+def _fresh_method(doc, stem):
+    """(method, UpperCamel suffix) not yet used by any request / notification (method or typeName)"""
+    used = {m["method"] for m in doc["requests"] + doc["notifications"]}
+    i = 0
+    while f"{stem}{i or ''}" in used:
+        i += 1
+    return f"{stem}{i or ''}", str(i or "")
+
+
 def new_structure(doc, rnd):
     n = _fresh(doc, "EvolvedOptions")
     doc["structures"].append({"name": n, "properties": [
@@ -35,12 +44,17 @@ def keyword_properties(doc, rnd):
     n = _fresh(doc, "EvolvedKeywordHolder")
     doc["structures"].append({"name": n, "properties": [
         {"name": "class", "type": B("string")}, {"name": "from", "type": B("uinteger"), "optional": True},
-        {"name": "global", "type": B("boolean"), "optional": True}, {"name": "import", "type": R("Range"), "optional": True}]})
-    return f"structure {n} whose property names are Python keywords"
+        {"name": "global", "type": B("boolean"), "optional": True}, {"name": "import", "type": R("Range"), "optional": True},
+        {"name": "return", "type": {"kind": "or", "items": [B("string"), B("null")]}},
+        {"name": "lambda", "type": {"kind": "or", "items": [R("Range"), B("null")]}, "optional": True},
+        {"name": "async", "type": {"kind": "stringLiteral", "value": "evolved"}}]})
+    return f"structure {n} whose property names are Python keywords (plain, null-admitting and string-literal ones)"
 
 
 def new_properties(doc, rnd):
     s = rnd.choice([s for s in doc["structures"] if s["name"] in ("FoldingRange", "DocumentLink", "Hover", "ShowMessageParams", "CodeLens")])
+    if any(p["name"] == "evolvedRef" for p in s["properties"]):
+        return f"(properties already added to {s['name']})"
     s["properties"] += [
         {"name": "evolvedRef", "type": R("Range"), "optional": True},
         {"name": "evolvedList", "type": {"kind": "array", "element": R("Position")}, "optional": True},
@@ -83,6 +97,8 @@ def closed_enum(doc, rnd):
 
 def enum_value(doc, rnd):
     e = next(e for e in doc["enumerations"] if e["name"] == "MarkupKind")
+    if any(v["name"] == "Asciidoc" for v in e["values"]):
+        return "(MarkupKind value already added)"
     e["values"].append({"name": "Asciidoc", "value": "asciidoc", "since": "9.9.9"})
     return "new value on the closed enumeration MarkupKind"
 
@@ -90,18 +106,20 @@ def enum_value(doc, rnd):
 def request_with_typename(doc, rnd):
     p = _fresh(doc, "EvolvedQueryParams")
     doc["structures"].append({"name": p, "properties": [{"name": "query", "type": B("string")}]})
-    doc["requests"].append({"method": "evolved/query", "typeName": "EvolvedQueryRequest", "messageDirection": "clientToServer",
+    m, k = _fresh_method(doc, "evolved/query")
+    doc["requests"].append({"method": m, "typeName": f"EvolvedQuery{k}Request", "messageDirection": "clientToServer",
                             "params": R(p), "result": {"kind": "or", "items": [{"kind": "array", "element": R("Location")}, B("null")]}})
-    doc["notifications"].append({"method": "evolved/didQuery", "typeName": "EvolvedDidQueryNotification", "messageDirection": "serverToClient", "params": R(p)})
+    m, k = _fresh_method(doc, "evolved/didQuery")
+    doc["notifications"].append({"method": m, "typeName": f"EvolvedDidQuery{k}Notification", "messageDirection": "serverToClient", "params": R(p)})
     return "request and notification with typeName"
 
 
 def request_without_typename(doc, rnd):
     p = _fresh(doc, "EvolvedPingParams")
     doc["structures"].append({"name": p, "properties": [{"name": "token", "type": B("string"), "optional": True}]})
-    doc["requests"].append({"method": "evolved/pingPong", "messageDirection": "both", "params": R(p), "result": B("null")})
-    doc["notifications"].append({"method": "evolved/didPing", "messageDirection": "clientToServer", "params": R(p)})
-    doc["notifications"].append({"method": "$/evolvedTick", "messageDirection": "both"})
+    doc["requests"].append({"method": _fresh_method(doc, "evolved/pingPong")[0], "messageDirection": "both", "params": R(p), "result": B("null")})
+    doc["notifications"].append({"method": _fresh_method(doc, "evolved/didPing")[0], "messageDirection": "clientToServer", "params": R(p)})
+    doc["notifications"].append({"method": _fresh_method(doc, "$/evolvedTick")[0], "messageDirection": "both"})
     return "request and notifications without typeName (one without params)"
 
 
@@ -111,7 +129,8 @@ def marks(doc, rnd):
     s["properties"][-1]["since"] = "9.9.9"
     n = _fresh(doc, "EvolvedProposed")
     doc["structures"].append({"name": n, "proposed": True, "since": "9.9.9", "properties": [{"name": "x", "type": B("string"), "proposed": True}]})
-    doc["requests"].append({"method": "evolved/proposedThing", "typeName": "EvolvedProposedThingRequest", "messageDirection": "clientToServer",
+    m, k = _fresh_method(doc, "evolved/proposedThing")
+    doc["requests"].append({"method": m, "typeName": f"EvolvedProposedThing{k}Request", "messageDirection": "clientToServer",
                             "params": R(n), "result": B("null"), "proposed": True})
     return f"proposed / deprecated / since marks ({s['name']}, new proposed structure {n} and request)"
 
@@ -155,4 +174,26 @@ def seeded(doc, rnd, n, length=(2, 5)):
             except (StopIteration, IndexError):
                 continue
         out.append((f"seq{i}", "; ".join(descs), d))
+    return out
+
+
+def discipline_problems(doc):
+    """What makes a document fall outside the generator's input discipline even though the schema accepts it:
+    duplicate type names, methods, typeNames, property names or enumeration members."""
+    out = []
+
+    def dups(xs, what):
+        seen = set()
+        for x in xs:
+            if x in seen:
+                out.append(f"duplicate {what} {x}")
+            seen.add(x)
+    dups([t["name"] for k in ("structures", "enumerations", "typeAliases") for t in doc[k]], "type name")
+    dups([m["method"] for m in doc["requests"]] , "request method")
+    dups([m["method"] for m in doc["notifications"]], "notification method")
+    dups([m["typeName"] for m in doc["requests"] + doc["notifications"] if m.get("typeName")], "typeName")
+    for st in doc["structures"]:
+        dups([f"{st['name']}.{p['name']}" for p in st["properties"]], "property")
+    for e in doc["enumerations"]:
+        dups([f"{e['name']}.{v['name']}" for v in e["values"]], "enumeration member")
     return out
